@@ -208,6 +208,6 @@ SUBS = {"pipeline": Sub(predicate, strategy=cases), "equilibrium": Sub(eq_pred, 
 
 
 def jobs(tier):
-    n1, n2 = (16, 5) if tier == "quick" else (300, 60)
+    n1, n2 = (16, 5) if tier == "quick" else (900, 180)
     return ([{"sub": "pipeline", "n": n1, "shard": i} for i in range(10)] +
             [{"sub": "equilibrium", "n": n2, "shard": i} for i in range(6)])
